@@ -23,8 +23,8 @@ EXHAUSTIVE = {"quick": True, "thorough": True}
 EXHAUSTIVE_PART = "all hex cells within N rings (quick N=14, thorough N=60) for both orientations; all cartesian cells within N rings"
 TIMEOUT = {"quick": 600, "thorough": 3600}
 FLOORS = {
-    "quick": {"hex.cell": 1000, "hex.neighbours": 1000, "cart.cell": 500, "bounds.cell": 200, "nest.loc": 100, "minrings": 1000, "reduce": 50, "changePitch": 20},
-    "thorough": {"hex.cell": 20000, "hex.neighbours": 20000, "cart.cell": 5000, "bounds.cell": 2000, "nest.loc": 1000, "minrings": 10000, "reduce": 500, "changePitch": 200},
+    "quick": {"hex.cell": 1000, "hex.neighbours": 1000, "cart.cell": 500, "bounds.cell": 200, "nest.loc": 100, "minrings": 1000, "reduce": 50, "changePitch": 20, "reduce.after-mutation": 100},
+    "thorough": {"hex.cell": 20000, "hex.neighbours": 20000, "cart.cell": 5000, "bounds.cell": 2000, "nest.loc": 1000, "minrings": 10000, "reduce": 500, "changePitch": 200, "reduce.after-mutation": 1000},
 }
 
 
@@ -647,6 +647,50 @@ def do_reduce(spec, rec, rng):
         except Exception as e:
             rec.crash("reduce", e, w)
         rec.case(["reduce", kind, sym, n], sample=dict(w, reduce=repr(red)[:300]) if n < 2 else None)
+        # the stored constructor arguments follow the live grid through every public mutation (reduce was already called once above,
+        # as a database write does; a later write must not see the earlier answer)
+        muts = []
+        try:
+            for _ in range(rng.randint(1, 3) if kind != "trz" else 0):  # an offset on a theta-r-z grid shifts theta out of its mesh: refused by armi
+                m = rng.choice(["offset=", "offset+=", "offset[k]=", "symmetry", "changePitch", "backup-restore"])
+                if m == "offset=":
+                    g.offset = np.array([rng.uniform(-3, 3) for _ in range(3)])
+                elif m == "offset+=":
+                    g.offset += np.array([0.0, rng.uniform(.1, 2), rng.uniform(-2, -.1)])
+                elif m == "offset[k]=":
+                    g.offset[rng.randrange(3)] = rng.uniform(-5, 5)
+                elif m == "symmetry":
+                    if kind not in ("hex", "hexcu", "hexz"):
+                        continue
+                    g.symmetry = rng.choice(["full", "third periodic"])
+                elif m == "changePitch":
+                    if kind in ("hex", "hexcu"):
+                        g.changePitch(g.pitch * rng.uniform(.5, 2))
+                    elif kind in ("cart", "cartoff"):
+                        px, py = g.pitch
+                        g.changePitch(px * rng.uniform(.5, 2), py * rng.uniform(.5, 2))
+                    else:
+                        continue
+                else:
+                    g.backUp()
+                    g.offset = np.array([rng.uniform(-3, 3) for _ in range(3)])
+                    g.reduce()
+                    g.restoreBackup()
+                muts.append(m)
+                rec.hit("reduce.after-mutation")
+                g3 = type(g)(*g.reduce())
+                bad = None
+                for idx in probe_indices(g, rng):
+                    if not (np.array_equal(g.getCoordinates(idx), g3.getCoordinates(idx)) and np.array_equal(g.getCellBase(idx), g3.getCellBase(idx)) and np.array_equal(g.getCellTop(idx), g3.getCellTop(idx))):
+                        bad = "coordinates at %s: live %s rebuilt %s" % (idx, list(g.getCoordinates(idx)), list(g3.getCoordinates(idx)))
+                        break
+                if bad is None and (g._symmetry != g3._symmetry or g._geomType != g3._geomType or g.getIndexBounds() != g3.getIndexBounds()):
+                    bad = "metadata: symmetry %s/%s geomType %s/%s" % (g._symmetry, g3._symmetry, g._geomType, g3._geomType)
+                if bad:
+                    rec.violation("reduce/stale-after-mutation/" + m, "grid rebuilt from reduce() after %s differs from the live grid: %s" % (muts, bad), dict(w, mutations=list(muts)))
+                    break
+        except Exception as e:
+            rec.crash("reduce-after-mutation", e, dict(w, mutations=muts))
         # hex changePitch: coordinates scale by ratio, nothing else changes
         if kind == "hexz":
             rec.skip("changePitch on a step+bounds (hex with axial bounds) grid: no armi factory builds one; not judged")
